@@ -14,6 +14,9 @@ Reference models (written here, independent of prysm):
   tile(avg) = S^T (replicate), tile(sum) = S^T/prod(f).
 * Bayer: the colour of site (i, j) is a function of (i%2, j%2) and the CFA string; every operator is
   rebuilt from that function.  Malvar kernels are transcribed from Malvar/He/Cutler 2004, fig. 2.
+* one live ``Detector`` over histories of exposures and attribute reassignments: the law above for the CURRENT attribute values,
+  and (differential) the exposure of a fresh Detector built with them.
+* large frames: the published kernels applied by strided slices (interior), own site slices, sums of strided sub-arrays, np.repeat.
 """
 import contextlib
 import itertools
